@@ -40,11 +40,20 @@ def shape_stack(rnd, rank, n, syms, sym_p=0.3, max_size=6, force_kind=None,
     return st
 
 
-def add_shape_partitioning(rnd, spec, info, ordered=None, force=None):
+def _set_map(s, out, parts, lo):
+    pt = dict(s.partitioning or {})
+    pt[out] = parts
+    s.partitioning = pt
+    l = dict(s.loop_order or {})
+    l[out] = lo
+    s.loop_order = l
+
+
+def add_shape_partitioning(rnd, spec, info, ordered=None, force=None, ei=0):
     """Return a new Spec with shape partitioning on a random non-empty subset
     of ranks and a loop order over all resulting levels."""
     s = spec.clone()
-    out = s.exprs[0].out.name
+    out = s.exprs[ei].out.name
     ranks = list(info["ranks"])
     parts = {}
     syms = {}
@@ -102,8 +111,7 @@ def add_shape_partitioning(rnd, spec, info, ordered=None, force=None):
     tags.append("ordered" if ordered else "unordered")
     if syms:
         tags.append("symbolic")
-    s.partitioning = {out: parts}
-    s.loop_order = {out: lo}
+    _set_map(s, out, parts, lo)
     s.syms.update(syms)
     s.tags = list(s.tags) + tags
     return s
@@ -120,12 +128,12 @@ def unpartitioned_of(spec):
 
 # ------------------------------------------------------------------ C03
 
-def add_occupancy(rnd, spec, info, force=None):
+def add_occupancy(rnd, spec, info, force=None, ei=0):
     """uniform_occupancy stacks (optionally beneath one shape split) on a
     random subset of ranks; leader = any input holding the rank; loop order
     keeps each rank's levels outermost->innermost."""
     s = spec.clone()
-    e = s.exprs[0]
+    e = s.exprs[ei]
     out = e.out.name
     ranks = list(info["ranks"])
     holders = {}
@@ -172,19 +180,18 @@ def add_occupancy(rnd, spec, info, force=None):
         else:
             groups.append([r])
     lo = interleave(rnd, groups, True)
-    s.partitioning = {out: parts}
-    s.loop_order = {out: lo}
+    _set_map(s, out, parts, lo)
     s.syms.update(syms)
     s.tags = list(s.tags) + tags + ["occupancy"]
     return s
 
 
-def add_flatten(rnd, spec, info, force=None):
+def add_flatten(rnd, spec, info, force=None, ei=0):
     """flatten() of 2-3 ranks of one input tensor, optionally after a shape
     split of the last one (as sigma does) and optionally followed by
     uniform_occupancy of the flattened rank."""
     s = spec.clone()
-    e = s.exprs[0]
+    e = s.exprs[ei]
     out = e.out.name
     cands = [a.name for a in e.inputs() if len(s.decl[a.name]) >= 2]
     if not cands:
@@ -233,7 +240,6 @@ def add_flatten(rnd, spec, info, force=None):
     if any(len([r for r in fr if r in s.decl[a.name]]) not in (0, len(fr))
            for a in e.inputs() if a.name != tname):
         tags.append("flatten-discordant")
-    s.partitioning = {out: parts}
-    s.loop_order = {out: lo}
+    _set_map(s, out, parts, lo)
     s.tags = list(s.tags) + tags
     return s
